@@ -653,6 +653,40 @@ func transient(pkts []*types.Packet, wire []byte, at int) (msg string) {
 	return ""
 }
 
+// reuse: a stream whose frames carry fields this build does not know (a newer peer) is read into ONE packet object
+// that is reset before every call, the way the receive loop reads: packet k equals a fresh decode of frame k - nothing
+// of an earlier frame stays behind, whether in a known field or among the unknown ones.
+func reuse(frames [][]byte) (msg string) {
+	defer func() {
+		if r := recover(); r != nil {
+			msg = fmt.Sprintf("panic: %v", r)
+		}
+	}()
+	var wire bytes.Buffer
+	for _, f := range frames {
+		wire.Write([]byte{byte(len(f) >> 24), byte(len(f) >> 16), byte(len(f) >> 8), byte(len(f))})
+		wire.Write(f)
+	}
+	rd := util.NewProtoStream(context.Background(), bytes.NewReader(wire.Bytes()), nil)
+	var p types.Packet
+	for i, f := range frames {
+		p.ResetVT()
+		if err := rd.RecvMsg(&p); err != nil {
+			return fmt.Sprintf("RecvMsg #%d: %v", i, err)
+		}
+		var fresh types.Packet
+		if err := fresh.UnmarshalVT(f); err != nil {
+			return fmt.Sprintf("frame #%d does not decode: %v", i, err)
+		}
+		got, _ := p.MarshalVT()
+		want, _ := fresh.MarshalVT()
+		if !p.EqualVT(&fresh) || !bytes.Equal(got, want) || p.SizeVT() != fresh.SizeVT() {
+			return fmt.Sprintf("packet #%d read into a re-used, reset packet re-encodes to %x; the same frame decoded into a fresh packet to %x", i, got, want)
+		}
+	}
+	return ""
+}
+
 // resend: one packet object is sent, changed and sent again (and again); what is read back is each value as it was sent.
 func resend(sizes []int) (msg string) {
 	defer func() {
@@ -780,6 +814,25 @@ func runC20(r *evid.Run) {
 						}
 						cnt++
 					}
+				}
+			}
+			// frames with unknown fields (varint field 6, bytes field 9, both) between ordinary ones, incl. empty frames
+			{
+				u1, u2 := []byte{0x30, 0x07}, []byte{0x4a, 0x03, 'n', 'e', 'w'}
+				enc := func(p *types.Packet, extra ...[]byte) []byte {
+					b, _ := p.MarshalVT()
+					for _, e := range extra {
+						b = append(b, e...)
+					}
+					return b
+				}
+				a, b, e := &types.Packet{Type: types.PACKET_DATA, ID: 3, Data: []byte("abc")}, &types.Packet{Type: types.PACKET_REQ, ID: 4}, &types.Packet{}
+				sets := [][][]byte{{enc(a, u1), enc(b), enc(e), enc(a)}, {enc(e, u1), enc(e), enc(e, u2), enc(e)}, {enc(a, u1, u2), enc(b, u2), enc(a), enc(e)}, {enc(b), enc(a, u2), enc(b, u1), enc(e, u1, u1), enc(e)}}
+				for si, fs := range sets {
+					if m := reuse(fs); m != "" {
+						r.Violate("reuse:"+firstWord(m), fmt.Sprintf("frame set %d: %s", si, m), c20Case{Kind: "reuse", Pkts: fs})
+					}
+					cnt++
 				}
 			}
 			for _, sz := range [][]int{{100, 10, 300}, {10, 100}, {40000, 5, 40000}, {0, 1, 0}, {33000, 32000}} {
@@ -1173,6 +1226,8 @@ func replayC20(raw json.RawMessage) string {
 	switch c.Kind {
 	case "decode":
 		return decodeArbitrary(c.Bytes)
+	case "reuse":
+		return reuse(c.Pkts)
 	case "mapentry":
 		var g, v, u types.Stat
 		gerr, verr, uerr := proto.Unmarshal(c.Bytes, &g), v.UnmarshalVT(c.Bytes), u.UnmarshalVTUnsafe(append([]byte{}, c.Bytes...))
